@@ -36,6 +36,19 @@ TRANSACT = "Transact-SQL"
 #: SQL dialect name: PL/SQL used by Oracle
 PL = "PL/SQL"
 
+
+def _digit_count(sign_adjusted_limit):
+    """
+    Number of decimal digits a column needs to store any integer within ``sign_adjusted_limit``,
+    which for a negative number ``n`` is ``-(n + 1)``.
+    """
+    result = len(str(sign_adjusted_limit))
+    if sign_adjusted_limit + 1 == 10**result:
+        # The negative limit -10...0 has one more digit than its sign adjusted limit 9...9.
+        result += 1
+    return result
+
+
 _INT_TYPES = set(["bigint", "int", "integer", "smallint", "tinyint"])
 
 _log = logging.getLogger("cutplace")
@@ -763,7 +776,7 @@ class PlSqlDialect(AnsiSqlDialect):
         elif ansi_type == "int":
             length = sql_ansi_type[1]
             if (length is not None) and (length > MAX_INTEGER):
-                result = ("number", length, 0)
+                result = ("number", _digit_count(length), 0)
 
         return result
 
@@ -983,7 +996,7 @@ class TransactSqlDialect(AnsiSqlDialect):
             elif limit <= MAX_BIGINT:
                 result = ("bigint", limit)
             else:
-                result = ("decimal", limit, 0)
+                result = ("decimal", _digit_count(limit), 0)
         else:
             result = sql_ansi_type
 
@@ -1308,7 +1321,7 @@ class Db2SqlDialect(AnsiSqlDialect):
             elif length <= MAX_BIGINT:
                 result = ("bigint", length)
             else:
-                result = ("decimal", length)
+                result = ("decimal", _digit_count(length))
         return result
 
     def __str__(self):
